@@ -26,15 +26,3 @@ Proof. vm_compute. reflexivity. Qed.
 Lemma dev_R6_refutes : refutes only_R6 witness_R6 = true.
 Proof. vm_compute. reflexivity. Qed.
 
-(* R7 leaves nothing Running: the resumed automaton accepts the witness without any flag; what differs is the outcome *)
-Definition refutes_outcome (d : devs) (c : rcase) : bool :=
-  match c with
-  | CRec sh im tr verdict determined _ =>
-      raccepts dev_none sh im tr && mon_noreexec im tr && determined
-      && negb (mon_converges dev_none sh im tr verdict determined)
-      && mon_converges d sh im tr verdict determined
-  | CRun _ _ _ => false
-  end.
-
-Lemma dev_R7_refutes : refutes_outcome only_R7 witness_R7 = true.
-Proof. vm_compute. reflexivity. Qed.
